@@ -7,8 +7,9 @@ txt = json.load(open(os.path.join(V, 'tools', 'manifest_text.json')))
 txt['checks'] = {f[:-5]: json.load(open(os.path.join(V, 'tools', 'manifest_text.d', f))) for f in sorted(os.listdir(os.path.join(V, 'tools', 'manifest_text.d'))) if f.endswith('.json')}
 props = [json.loads(l)['id'] for l in open(os.path.join(V, 'properties.jsonl'))]
 checks, na, engines = [], [], {}
+claimed = set(json.load(open(os.path.join(V, 'tools', 'claimed.json'))))
 for pid in props:
-    if pid in reg and not reg[pid].get('disabled'):
+    if pid in reg and pid in claimed and pid in txt['checks']:
         e = reg[pid]; t = txt['checks'][pid]
         checks.append({
             'property_id': pid,
